@@ -10,7 +10,7 @@ From E57 Require Import Base.Prelude Spec.PageSpec Model.PagedWriter Model.Prog 
   Model.PcWriter Model.FileBin Model.Meta Model.MetaFile Model.WriterApi Spec.FileSpec Spec.FileSpecXml.
 From E57 Require Import Proofs.ProgTransfer Proofs.PcWriterLemmas Proofs.PcWriterPacket Proofs.BitWidthProofs
   Proofs.FileRtWriter Proofs.WapiProg Proofs.WapiPc Proofs.WapiRules Proofs.WapiInv Proofs.WapiMain.
-From E57 Require Import Spec.BitSpec Spec.FormatSpec.
+From E57 Require Import Spec.BitSpec Spec.FormatSpec Proofs.WapiFullMeta.
 From Coq Require Import ZifyN ZifyNat ZifyBool.
 Open Scope N_scope.
 
@@ -26,12 +26,25 @@ Definition is_im_body (c : wcall) : Prop :=
   | _ => False
   end.
 
+(** a session's limits end up complete: the caller sets them, or the prototype declares the range
+    (the default limits of a float attribute without declared minimum and maximum are incomplete;
+    the writer accepts that and does not write them - then the reader reports no limits at all) *)
+Definition has_ilim (body : list wcall) : bool :=
+  existsb (fun c => match c with PcSet (PfIntensityLimits _) => true | _ => false end) body.
+Definition has_clim (body : list wcall) : bool :=
+  existsb (fun c => match c with PcSet (PfColorLimits _) => true | _ => false end) body.
+Definition limits_declared (proto : list record) (body : list wcall) : Prop :=
+  (has_ilim body = true \/
+   match default_intensity_limits proto with Some l => il_complete l = true | None => True end) /\
+  (has_clim body = true \/
+   forall l, default_color_limits proto = Ok (Some l) -> cl_complete l = true).
+
 (** the grammar of the calls between [new] and the top-level [finalize] *)
 Inductive units : list wcall -> Prop :=
 | un_nil : units []
 | un_setter c r : is_setter c -> units r -> units (c :: r)
 | un_blob data r : units r -> units (AddBlob data :: r)
-| un_pc guid proto body r : Forall is_pc_body body -> units r ->
+| un_pc guid proto body r : Forall is_pc_body body -> limits_declared proto body -> units r ->
     units (AddPointcloud guid proto :: body ++ [PcFinalize; PcDrop] ++ r)
 | un_im guid ibody r : Forall is_im_body ibody -> units r ->
     units (AddImage guid :: ibody ++ [ImFinalize; ImDrop] ++ r).
@@ -102,6 +115,7 @@ Inductive explains : list wcall -> list item -> list item_out -> list pointcloud
 | ex_pc guid proto body off n pc r is os pcs ims bl :
     Forall is_pc_body body ->
     item_wf (IPc (proto_dtypes proto) (body_points body)) = true ->
+    pc_limits_complete pc = true ->
     pc_guid pc = Some guid -> pc_prototype pc = proto -> pc_file_offset pc = off -> pc_records pc = n ->
     explains r is os pcs ims bl ->
     explains (AddPointcloud guid proto :: body ++ [PcFinalize; PcDrop] ++ r)
@@ -199,7 +213,10 @@ Lemma pc_new_ok_inv exts guid proto l l1 ps :
   ext_validate_prototype proto exts = Ok tt /\ validate_prototype proto = Ok tt /\
   wrun_spec (pcw_new (proto_dtypes proto)) l = (l1, Ok (ps_w ps)) /\
   ps_proto ps = proto /\ ps_finalized ps = false /\ pc_guid (ps_desc ps) = Some guid /\
-  pc_prototype (ps_desc ps) = proto.
+  pc_prototype (ps_desc ps) = proto /\
+  ps_custom_il ps = false /\ ps_custom_cl ps = false /\
+  exists cl, default_color_limits proto = Ok cl /\
+             ps_desc ps = desc_new guid proto (default_intensity_limits proto) cl.
 Proof.
   rewrite wrun_spec_wtry. unfold pc_new. rewrite run_bind, run_wlift. cbn [fst snd].
   destruct (ext_validate_prototype proto exts) as [[]|k|]; cbn [fst snd]; try (intros H; inversion H; fail).
@@ -209,7 +226,7 @@ Proof.
   destruct (wrun_spec (pcw_new (proto_dtypes proto)) l) as [l2 [w|k|]]; cbn [fst snd]; try (intros H; inversion H; fail).
   rewrite run_bind, run_wlift. cbn [fst snd].
   destruct (default_color_limits proto) as [cl|k|]; cbn [fst snd wret wrun_spec]; intros H; inversion H; subst.
-  cbn. repeat split; reflexivity.
+  cbn. repeat split; try reflexivity. exists cl. split; reflexivity.
 Qed.
 
 Lemma step_addpc st guid proto l l' st' r : top st -> res_ok r ->
@@ -218,7 +235,10 @@ Lemma step_addpc st guid proto l l' st' r : top st -> res_ok r ->
     ext_validate_prototype proto (ws_exts st) = Ok tt /\ validate_prototype proto = Ok tt /\
     wrun_spec (pcw_new (proto_dtypes proto)) l = (l', Ok (ps_w ps)) /\
     ps_proto ps = proto /\ ps_finalized ps = false /\ pc_guid (ps_desc ps) = Some guid /\
-    pc_prototype (ps_desc ps) = proto.
+    pc_prototype (ps_desc ps) = proto /\
+    ps_custom_il ps = false /\ ps_custom_cl ps = false /\
+    exists cl, default_color_limits proto = Ok cl /\
+               ps_desc ps = desc_new guid proto (default_intensity_limits proto) cl.
 Proof.
   intros [Ho Hs] Hr. unfold wapi_step. rewrite Ho, Hs. cbn [negb].
   destruct (ws_finalized st); [cbn [wret wrun_spec]; intros H; inversion H; subst; destruct Hr|].
@@ -282,11 +302,15 @@ Lemma body_prog : forall body st l l' st' rs ps,
     ps_finalized ps' = ps_finalized ps /\ ps_proto ps' = ps_proto ps /\
     pc_guid (ps_desc ps') = pc_guid (ps_desc ps) /\ pc_prototype (ps_desc ps') = pc_prototype (ps_desc ps) /\
     w_proto (ps_w ps') = w_proto (ps_w ps) /\
-    Forall (fun vs => values_ok (w_proto (ps_w ps)) vs = true) (body_points body).
+    Forall (fun vs => values_ok (w_proto (ps_w ps)) vs = true) (body_points body) /\
+    ps_desc ps' = body_desc body (ps_desc ps) /\
+    ps_custom_il ps' = ps_custom_il ps || has_ilim body /\
+    ps_custom_cl ps' = ps_custom_cl ps || has_clim body.
 Proof.
   induction body as [|c body IH]; intros st l l' st' rs ps Ho Hs Hb Hrun Hok.
   - cbn [wapi_run wret wrun_spec] in Hrun. inversion Hrun; subst l' st' rs.
-    exists ps. split; [destruct st; cbn in *; subst; reflexivity|]. cbn [body_points add_points wret wrun_spec]. auto 9.
+    exists ps. split; [destruct st; cbn in *; subst; reflexivity|]. cbn [body_points add_points wret wrun_spec body_desc has_ilim has_clim existsb].
+    rewrite !orb_false_r. auto 12.
   - inversion Hb as [|? ? Hc Hb']; subst.
     destruct (run_cons _ _ _ _ _ _ _ Hrun) as (l1 & s1 & r1 & rs1 & H1 & H2 & ->).
     inversion Hok as [|? ? Hr1 Hok1]; subst.
@@ -294,10 +318,14 @@ Proof.
     destruct c; try (destruct Hc; fail).
     + (* PcSet *)
       cbn [wret wrun_spec] in H1. inversion H1; subst. clear H1.
-      match type of H2 with wrun_spec (wapi_run _ _ ?s0 _) _ = _ => destruct (IH s0 _ _ _ _ _ Ho eq_refl Hb' H2 Hok1) as (ps' & E & Hr & Hf & Hp & Hg & Hpr & Hwp & Hvs) end.
-      cbn [ps_w ps_finalized ps_proto ps_desc] in *. destruct (pc_set_keeps f (ps_desc ps)) as [K1 K2].
-      exists ps'. split; [rewrite E; destruct st; reflexivity|]. cbn [body_points].
-      split; [exact Hr|]. split; [exact Hf|]. split; [exact Hp|]. split; [congruence|]. split; [congruence|]. auto.
+      match type of H2 with wrun_spec (wapi_run _ _ ?s0 _) _ = _ => destruct (IH s0 _ _ _ _ _ Ho eq_refl Hb' H2 Hok1) as (ps' & E & Hr & Hf & Hp & Hg & Hpr & Hwp & Hvs & Hds & Hci & Hcc) end.
+      cbn [ps_w ps_finalized ps_proto ps_desc ps_custom_il ps_custom_cl] in *. destruct (pc_set_keeps f (ps_desc ps)) as [K1 K2].
+      exists ps'. split; [rewrite E; destruct st; reflexivity|]. cbn [body_points body_desc].
+      split; [exact Hr|]. split; [exact Hf|]. split; [exact Hp|]. split; [congruence|]. split; [congruence|].
+      split; [exact Hwp|]. split; [exact Hvs|]. split; [exact Hds|].
+      unfold has_ilim, has_clim. cbn [existsb]. rewrite Hci, Hcc.
+      split; destruct f; cbn; rewrite ?orb_true_r, ?orb_false_r; try reflexivity;
+        destruct (ps_custom_il ps), (ps_custom_cl ps); reflexivity.
     + (* PcAddPoint *)
       rewrite run_bind in H1.
       destruct (wrun_spec (pc_add_point values ps) l) as [la [[ps1 r0]|k|]] eqn:E1; cbn [fst snd wret wrun_spec] in H1;
@@ -313,33 +341,47 @@ Proof.
           [reflexivity|destruct Hr1]. }
       subst r1.
       destruct (pc_add_point_ok_inv values ps l l1 ps1 E1) as (Hfin & Hv & b1 & w' & Hub & Hps1 & Hrunw).
-      match type of H2 with wrun_spec (wapi_run _ _ ?s0 _) _ = _ => destruct (IH s0 _ _ _ _ _ Ho eq_refl Hb' H2 Hok1) as (ps' & E & Hr & Hf & Hp & Hg & Hpr & Hwp & Hvs) end.
-      subst ps1. cbn [ps_w ps_finalized ps_proto ps_desc] in *.
+      match type of H2 with wrun_spec (wapi_run _ _ ?s0 _) _ = _ => destruct (IH s0 _ _ _ _ _ Ho eq_refl Hb' H2 Hok1) as (ps' & E & Hr & Hf & Hp & Hg & Hpr & Hwp & Hvs & Hds & Hci & Hcc) end.
+      subst ps1. cbn [ps_w ps_finalized ps_proto ps_desc ps_custom_il ps_custom_cl] in *.
       pose proof (add_point_proto _ _ _ _ _ Hrunw) as Hw'.
       exists ps'. split; [rewrite E; destruct st; reflexivity|]. cbn [body_points add_points].
       split; [rewrite run_bind, Hrunw; exact Hr|]. split; [congruence|]. split; [exact Hp|]. split; [exact Hg|].
-      split; [exact Hpr|]. split; [congruence|]. constructor; [exact Hv|]. rewrite <- Hw'. exact Hvs.
+      split; [exact Hpr|]. split; [congruence|]. split; [constructor; [exact Hv|]; rewrite <- Hw'; exact Hvs|].
+      cbn [body_desc has_ilim has_clim existsb orb]. auto.
 Qed.
 
-Lemma pc_unit st guid proto body l l' st' rs : top st -> Forall is_pc_body body ->
+Lemma has_ilim_false : forall body cur, has_ilim body = false -> body_ilim body cur = cur.
+Proof.
+  induction body as [|c r IH]; intros cur H; [reflexivity|]. unfold has_ilim in H. cbn [existsb] in H.
+  apply orb_false_iff in H as [H1 H2]. destruct c; cbn [body_ilim]; try (apply IH; exact H2).
+  destruct f; try discriminate; apply IH; exact H2.
+Qed.
+Lemma has_clim_false : forall body cur, has_clim body = false -> body_clim body cur = cur.
+Proof.
+  induction body as [|c r IH]; intros cur H; [reflexivity|]. unfold has_clim in H. cbn [existsb] in H.
+  apply orb_false_iff in H as [H1 H2]. destruct c; cbn [body_clim]; try (apply IH; exact H2).
+  destruct f; try discriminate; apply IH; exact H2.
+Qed.
+
+Lemma pc_unit st guid proto body l l' st' rs : top st -> Forall is_pc_body body -> limits_declared proto body ->
   proto_i64 proto -> Forall call_wf body ->
   wrun_spec (run st (AddPointcloud guid proto :: body ++ [PcFinalize; PcDrop])) l = (l', Ok (st', rs)) ->
   Forall res_ok rs ->
   exists off n pc,
-    item_wf (IPc (proto_dtypes proto) (body_points body)) = true /\
+    item_wf (IPc (proto_dtypes proto) (body_points body)) = true /\ pc_limits_complete pc = true /\
     wrun_spec (item_write (IPc (proto_dtypes proto) (body_points body))) l = (l', Ok (OPc off n)) /\
     top st' /\ ws_pcs st' = ws_pcs st ++ [pc] /\ ws_imgs st' = ws_imgs st /\
     pc_guid pc = Some guid /\ pc_prototype pc = proto /\ pc_file_offset pc = off /\ pc_records pc = n /\
     ws_exts st' = ws_exts st /\ ws_root st' = ws_root st /\ ws_finalized st' = ws_finalized st.
 Proof.
-  intros Ht Hb Hi64 Hwfb Hrun Hok. pose proof Ht as [Ho Hs].
+  intros Ht Hb Hld Hi64 Hwfb Hrun Hok. pose proof Ht as [Ho Hs].
   destruct (run_cons _ _ _ _ _ _ _ Hrun) as (l1 & s1 & r1 & rs1 & H1 & H2 & ->).
   inversion Hok as [|? ? Hr1 Hok1]; subst.
-  destruct (step_addpc _ _ _ _ _ _ _ Ht Hr1 H1) as (ps & -> & _ & Hval & Hnew & Hpp & Hfin & Hg & Hpr).
+  destruct (step_addpc _ _ _ _ _ _ _ Ht Hr1 H1) as (ps & -> & _ & Hval & Hnew & Hpp & Hfin & Hg & Hpr & Hci0 & Hcc0 & cl0 & Hcl0 & Hd0).
   destruct (run_app_ok _ _ _ _ _ _ _ H2) as (l2 & s2 & ra & rb & Hbody & Hfinal & ->).
   apply Forall_app in Hok1 as [Hoka Hokb].
   destruct (body_prog body (set_sub st (SubPc ps)) _ _ _ _ ps Ho eq_refl Hb Hbody Hoka)
-    as (ps2 & -> & Hadd & Hf2 & Hp2 & Hg2 & Hpr2 & _ & Hvs).
+    as (ps2 & -> & Hadd & Hf2 & Hp2 & Hg2 & Hpr2 & _ & Hvs & Hds2 & Hci2 & Hcc2).
   destruct (pcw_new_proto _ _ _ _ Hnew) as (Hwp & mpp & Hmpp).
   assert (Hiwf : item_wf (IPc (proto_dtypes proto) (body_points body)) = true).
   {
@@ -366,17 +408,38 @@ Proof.
   }
   (* finalize, drop *)
   destruct (run_cons _ _ _ _ _ _ _ Hfinal) as (l3 & s3 & r3 & rs3 & H3 & H4 & ->).
-  inversion Hokb as [|? ? Hr3 Hok3]; subst.
+  pose proof (Forall_inv Hokb) as Hr3.
   unfold wapi_step in H3. cbn [set_sub ws_open ws_sub] in H3. rewrite Ho in H3. cbn [negb] in H3.
   rewrite run_bind in H3. unfold pc_finalize in H3. rewrite Hf2, Hfin in H3.
+  destruct (custom_limits_ok (ps_custom_il ps2) (ps_custom_cl ps2) (ps_desc ps2)) eqn:Ecl; cbn [negb] in H3;
+    [|cbn [wret wrun_spec fst snd] in H3; inversion H3; subst; destruct Hr3].
+  assert (Hlim : pc_limits_complete (desc_finish (ps_desc ps2) (ps_bounds ps2) 0 0) = true).
+  { destruct (desc_finish_bounds (ps_desc ps2) (ps_bounds ps2) 0 0) as (_ & _ & _ & _ & D5 & D6 & _).
+    unfold pc_limits_complete. rewrite D5, D6.
+    destruct (body_desc_limits body (ps_desc ps)) as (L1 & L2). rewrite <- Hds2 in L1, L2.
+    rewrite Hd0 in L1, L2. cbn [desc_new pc_intensity_limits pc_color_limits] in L1, L2.
+    rewrite Hci0 in Hci2. rewrite Hcc0 in Hcc2. cbn [orb] in Hci2, Hcc2.
+    unfold custom_limits_ok in Ecl. apply andb_prop in Ecl as [E1 E2]. destruct Hld as [Hl1 Hl2].
+    apply andb_true_intro. split.
+    - destruct (ps_custom_il ps2) eqn:Ec.
+      + destruct (pc_intensity_limits (ps_desc ps2)); [exact E1|reflexivity].
+      + rewrite L1, (has_ilim_false body _ (eq_sym Hci2)).
+        destruct Hl1 as [Hl1|Hl1]; [congruence|]. destruct (default_intensity_limits proto); [exact Hl1|reflexivity].
+    - destruct (ps_custom_cl ps2) eqn:Ec.
+      + destruct (pc_color_limits (ps_desc ps2)); [exact E2|reflexivity].
+      + rewrite L2, (has_clim_false body _ (eq_sym Hcc2)).
+        destruct Hl2 as [Hl2|Hl2]; [congruence|]. destruct cl0 as [c0|]; [apply (Hl2 c0 Hcl0)|reflexivity]. }
   rewrite run_bind, wrun_spec_wtry in H3.
   destruct (wrun_spec (pcw_finalize (ps_w ps2)) l2) as [l4 [[[w2 off] cnt]|k|]] eqn:Ef; cbn [fst snd wret wrun_spec] in H3;
     inversion H3; subst; try (destruct Hr3; fail). clear H3.
   destruct (run_cons _ _ _ _ _ _ _ H4) as (l5 & s5 & r5 & rs5 & H5 & H6 & ->).
   unfold wapi_step in H5. cbn [ws_open ws_sub] in H5. cbn [negb] in H5. cbn [wret wrun_spec] in H5.
   inversion H5; subst. clear H5. cbn [wapi_run wret wrun_spec] in H6. inversion H6; subst. clear H6.
-  exists off, cnt. eexists. split; [|split; [|split; [split; reflexivity|]]].
+  exists off, cnt. eexists. split; [|split; [|split; [|split; [split; reflexivity|]]]].
   - exact Hiwf.
+  - destruct (desc_finish_bounds (ps_desc ps2) (ps_bounds ps2) off cnt) as (_ & _ & _ & _ & D5 & D6 & _).
+    destruct (desc_finish_bounds (ps_desc ps2) (ps_bounds ps2) 0 0) as (_ & _ & _ & _ & D5' & D6' & _).
+    unfold pc_limits_complete in *. rewrite D5, D6. rewrite D5', D6' in Hlim. exact Hlim.
   - cbn [item_write]. rewrite run_bind, Hnew. cbn [fst snd]. rewrite run_bind, Hadd. cbn [fst snd].
     rewrite run_bind, Ef. reflexivity.
   - cbn [set_sub ws_pcs ws_imgs ws_exts ws_root ws_finalized].
@@ -535,7 +598,7 @@ Theorem units_prog : forall tops, units tops -> Forall call_wf tops ->
     top st' /\ ws_pcs st' = ws_pcs st ++ pcs /\ ws_imgs st' = ws_imgs st ++ ims /\
     ws_finalized st' = ws_finalized st.
 Proof.
-  induction 1 as [|c r Hc _ IH|data r _ IH|guid proto body r Hb _ IH|guid ibody r Hb _ IH];
+  induction 1 as [|c r Hc _ IH|data r _ IH|guid proto body r Hb Hld _ IH|guid ibody r Hb _ IH];
     intros Hwf st l l' st' rs Ht Hrun Hok.
   - cbn [wapi_run wret wrun_spec] in Hrun. inversion Hrun; subst.
     exists [], [], [], [], []. split; [constructor|]. split; [reflexivity|]. split; [exact Ht|].
@@ -567,8 +630,8 @@ Proof.
     rewrite app_comm_cons, app_assoc in Hrun.
     destruct (run_app_ok _ _ _ _ _ _ _ Hrun) as (l1 & s1 & ra & rb & Hu & Hrest & ->).
     apply Forall_app in Hok as [Hoka Hokb].
-    destruct (pc_unit _ _ _ _ _ _ _ _ Ht Hb Hwf1 Hwfb Hu Hoka)
-      as (off & n & pc & Hiwf & Hw1 & Ht1 & Hp1 & Hi1 & Hg & Hpr & Hoff & Hn & _ & _ & Hf1).
+    destruct (pc_unit _ _ _ _ _ _ _ _ Ht Hb Hld Hwf1 Hwfb Hu Hoka)
+      as (off & n & pc & Hiwf & Hplc & Hw1 & Ht1 & Hp1 & Hi1 & Hg & Hpr & Hoff & Hn & _ & _ & Hf1).
     destruct (IH Hwfr _ _ _ _ _ Ht1 Hrest Hokb) as (is & os & pcs & ims & bl & He & Hw & Ht' & Hp & Hi & Hf).
     exists (IPc (proto_dtypes proto) (body_points body) :: is), (OPc off n :: os), (pc :: pcs), ims, bl.
     split; [apply ex_pc; assumption|]. split.
@@ -624,10 +687,19 @@ Qed.
 
 End Prog.
 
+Lemma explains_limits_complete tops is os pcs ims bl : explains tops is os pcs ims bl ->
+  forallb pc_limits_complete pcs = true.
+Proof.
+  induction 1 as [|c r is os pcs ims bl _ _ IH|data off ln r is os pcs ims bl _ IH
+                  |guid proto body off n pc r is os pcs ims bl _ _ Hlc _ _ _ _ _ IH
+                  |guid ibody iouts r is os pcs ims bl _ _ _ IH]; try exact IH; try reflexivity.
+  cbn [forallb]. rewrite Hlc. exact IH.
+Qed.
+
 Lemma explains_items_wf tops is os pcs ims bl : explains tops is os pcs ims bl -> forallb item_wf is = true.
 Proof.
   induction 1 as [|c r is os pcs ims bl _ _ IH|data off ln r is os pcs ims bl _ IH
-                  |guid proto body off n pc r is os pcs ims bl _ Hwf _ _ _ _ _ IH
+                  |guid proto body off n pc r is os pcs ims bl _ Hwf _ _ _ _ _ _ IH
                   |guid ibody iouts r is os pcs ims bl _ _ _ IH]; try exact IH; try reflexivity.
   - cbn [forallb]. rewrite Hwf. exact IH.
   - rewrite forallb_app, IH, andb_true_r. clear. induction ibody as [|c ib IHi]; [reflexivity|].
